@@ -35,6 +35,8 @@ type World struct {
 	callSites      map[*ssa.Function][]ssa.CallInstruction
 	lexModel       *lexSSAModel
 	memo           map[string]interface{}
+	coreMdl        *coreModel
+	coreOnce       sync.Once
 	postMemo       map[string]interface{}
 	predSubst      sync.Map // parameter of a single-site predicate function -> the argument of that call
 	globalInit     map[*ssa.Global]*ssa.Store
